@@ -137,6 +137,15 @@ class FilesystemIsolation(ContextDecorator):
             # Nothing to track for file descriptors.
             return ()
         abs_path = self._abspath(path)
+        if os.path.islink(abs_path):  # noqa: PTH114
+            # Writing to a symbolic link writes to what it points to: a link created
+            # inside the sandbox must not become a way to change (or create) files
+            # outside of it.
+            target = os.path.realpath(abs_path)  # noqa: PTH100
+            if target != abs_path:
+                if overwrite and not self._is_isolated(abs_path):
+                    raise PermissionError(f"Attempted to modify non-isolated path: {abs_path}")
+                return self._guard_write(target, overwrite=overwrite)
         if os.path.lexists(abs_path):  # noqa: PTH110
             if overwrite and not self._is_isolated(abs_path):
                 raise PermissionError(f"Attempted to modify non-isolated path: {abs_path}")
